@@ -944,6 +944,13 @@ func (f *fnState) appendBuiltin(i *ssa.Call) {
 		if more.Sort == sSlice {
 			f.assume(fmt.Sprintf("(forall ((aj Int)) (! (=> (and (<= 0 aj) (< aj %s)) (= (select %s (mk-loc %s (+ (s-len %s) aj))) (select %s %s))) :pattern ((select %s (mk-loc %s (+ (s-len %s) aj))))))",
 				ml, cur, r, s.T, cur, locOff(fmt.Sprintf("(s-loc %s)", more.T), "aj"), cur, r, s.T))
+			// append(s, x, y): a constant number of new elements — say it element by element as well
+			// (triggers with arithmetic are unreliable)
+			if n, err := strconv.Atoi(f.constLen(more)); err == nil && n <= 8 {
+				for j := 0; j < n; j++ {
+					f.assume(fmt.Sprintf("(= (select %s (mk-loc %s (+ (s-len %s) %d))) (select %s %s))", cur, r, s.T, j, cur, locOff(fmt.Sprintf("(s-loc %s)", more.T), strconv.Itoa(j))))
+				}
+			}
 		}
 	}
 }
